@@ -207,6 +207,61 @@ theorem keysAt_append_other {c c' : Dag} {extra : List (NodeId × Op)} (h : c'.n
 theorem predOut_two (P : Paths) (r : Reg) (a b : NodeId) (h : P r = [a, b]) : predOut P r = a := by
   simp [predOut, h]
 
+theorem HasDepth.unique {c : Dag} {n : NodeId} {d1 : Int} (h1 : HasDepth c n d1) : ∀ {d2 : Int}, HasDepth c n d2 → d1 = d2 := by
+  induction h1 with
+  | @input n hi =>
+    intro d2 h2
+    cases h2 with
+    | input _ => rfl
+    | node _ hni _ _ _ => exact absurd hi hni
+  | @node n d D hni hpred hle hex ih =>
+    intro d2 h2
+    cases h2 with
+    | input hi => exact absurd hi hni
+    | @node _ d' D' _ hpred' hle' hex' =>
+      obtain ⟨e1, he1, hd1, hD1⟩ := hex
+      obtain ⟨e2, he2, hd2, hD2⟩ := hex'
+      have a1 : D e1 = D' e1 := ih e1 he1 hd1 (hpred' e1 he1 hd1)
+      have a2 : D e2 = D' e2 := ih e2 he2 hd2 (hpred' e2 he2 hd2)
+      have b1 := hle' e1 he1 hd1
+      have b2 := hle e2 he2 hd2
+      omega
+
+/-- creating a register: old nodes keep their depth, the new input has depth −1, the new output depth 0 -/
+theorem withNewReg_depth_facts {c : Dag} {P : Paths} (g : Good c P) {r : Reg} (hr : r.idx = c.regs r.ty) :
+    (∀ x d, HasDepth c x d → x ∈ c.nodeIds → HasDepth (c.withNewReg r) x d) ∧
+    HasDepth (c.withNewReg r) (.inp r) (-1) ∧ HasDepth (c.withNewReg r) (.out r) 0 := by
+  have g1 := withNewReg_good g hr
+  have hnl : ¬ c.live r := by simp [live, hr]
+  have hinp : NodeId.inp r ∉ c.nodeIds := fun hm => hnl ((g.inv.inp_iff r).mp hm)
+  have hout : NodeId.out r ∉ c.nodeIds := fun hm => hnl ((g.inv.out_iff r).mp hm)
+  have hnodes : (c.withNewReg r).nodes = c.nodes ++ [(.inp r, Op.io .input r), (.out r, Op.io .output r)] := rfl
+  have hedges : (c.withNewReg r).edges = c.edges ++ [⟨.inp r, .out r, r⟩] := rfl
+  have hl1 : (c.withNewReg r).live r := (withNewReg_live c r r hr).mpr (Or.inr rfl)
+  have hin1 : HasDepth (c.withNewReg r) (.inp r) (-1) := HasDepth.input (isInputNode_inp g1.inv hl1)
+  refine ⟨?_, hin1, ?_⟩
+  · intro x d hx hxn
+    apply HasDepth.transfer (fun x => x ∈ c.nodeIds) _ _ _ hx hxn
+    · intro e he _; exact (g.inv.edge_nodes he).1
+    · intro x hx e
+      rw [hedges, List.mem_append, List.mem_singleton]
+      constructor
+      · rintro ⟨he | he, hd⟩
+        · exact ⟨he, hd⟩
+        · exfalso; rw [he] at hd; simp only at hd; exact hout (hd ▸ hx)
+      · rintro ⟨he, hd⟩; exact ⟨Or.inl he, hd⟩
+    · intro x hx
+      rw [isInputNode_iff g1.inv, isInputNode_iff g.inv, keysAt_append_other hnodes]
+      intro p hp
+      simp at hp
+      rcases hp with rfl | rfl
+      · intro e; simp only at e; subst e; exact hinp hx
+      · intro e; simp only at e; subst e; exact hout hx
+  · have hp : predOut (setPath P r [.inp r, .out r]) r = .inp r := predOut_two _ r (.inp r) (.out r) (by simp)
+    have := HasDepth.out_of_pred g1.inv hl1 (d := -1) (by rw [hp]; exact hin1)
+    have h0 : (-1 : Int) + 1 = 0 := by decide
+    rw [h0] at this; exact this
+
 theorem withNewReg_depthInv {c : Dag} {P : Paths} (g : Good c P) {F : Reg → Int} (hF : DepthInv c F) {r : Reg}
     (hr : r.idx = c.regs r.ty) : DepthInv (c.withNewReg r) F := by
   have g1 := withNewReg_good g hr
@@ -292,9 +347,12 @@ theorem ensureRegs_depthInv {c : Dag} {P : Paths} (g : Good c P) {F : Reg → In
 
 /-- **`_add` and the ASAP rule**: the new operation lands one layer above the deepest of its registers, and every
     register it touches gets that layer; other registers keep theirs -/
-theorem add_depthInv {c : Dag} {P : Paths} (g : Good c P) {op : Op} (hop : OpWF op)
+theorem add_depth_facts {c : Dag} {P : Paths} (g : Good c P) {op : Op} (hop : OpWF op)
     (hkey : "Input" ∉ op.indexKeys) (hlive : ∀ r ∈ opRegs op, c.live r) {F : Reg → Int} (hF : DepthInv c F) {M : Int}
     (hle : ∀ k ∈ opRegs op, F k ≤ M) (hex : ∃ k ∈ opRegs op, F k = M) :
+    (∀ x d, HasDepth c x d → x ≠ .op (c.nodeId + 1) → (∀ k ∈ opRegs op, x ≠ .out k) → HasDepth (c.add_ op) x d) ∧
+    HasDepth (c.add_ op) (.op (c.nodeId + 1)) M ∧
+    (∀ r ∈ opRegs op, HasDepth (c.add_ op) (.out r) (M + 1)) ∧
     DepthInv (c.add_ op) (fun r => if r ∈ opRegs op then M + 1 else F r) := by
   obtain ⟨P2, g2, hregs, _, hnodes, _⟩ := add_good' g hop hlive
   let n := NodeId.op (c.nodeId + 1)
@@ -363,30 +421,34 @@ theorem add_depthInv {c : Dag} {P : Paths} (g : Good c P) {op : Op} (hop : OpWF 
         have := (hn_in ⟨predOut P k, n, k⟩).mpr ⟨k, hk, rfl⟩
         exact ⟨_, this.1, this.2, by simp only; omega⟩
     simpa using this
+  have hout : ∀ r ∈ opRegs op, HasDepth (c.add_ op) (.out r) (M + 1) := by
+    intro r hr
+    have hl0 : c.live r := hlive r hr
+    have hout_in : ∀ e, (e ∈ (c.add_ op).edges ∧ e.dst = .out r) ↔ e = ⟨n, .out r, r⟩ := by
+      intro e
+      rw [hE]
+      constructor
+      · rintro ⟨⟨he, hne⟩ | ⟨k, hk, h | h⟩, hd⟩
+        · exfalso
+          have : e ∈ c.inEdges (.out r) := by simp [inEdges, he, hd]
+          rw [g.inv.inEdges_out hl0] at this
+          exact hne r hr (by simpa using this)
+        · exfalso; rw [h] at hd; exact absurd hd (by simp)
+        · rw [h] at hd ⊢; injection hd with hd; subst hd; rfl
+      · intro h
+        exact ⟨Or.inr ⟨r, hr, Or.inr h⟩, by rw [h]⟩
+    apply HasDepth.node (fun _ => M) (not_isInputNode_out g2.inv r)
+    · intro e he hd; rw [(hout_in e).mp ⟨he, hd⟩]; exact hdn
+    · intro e _ _; exact Int.le_refl _
+    · have := (hout_in ⟨n, .out r, r⟩).mpr rfl
+      exact ⟨_, this.1, this.2, rfl⟩
+  refine ⟨fun x d hx h1 h2 => htrans hx ⟨h1, h2⟩, hdn, hout, ?_⟩
   constructor
   · intro r hl
     have hl0 : c.live r := (hlive2 r).mp hl
     by_cases hr : r ∈ opRegs op
     · simp only [hr, if_true]
-      -- the only in-edge of `out r` now comes from the new node
-      have hout_in : ∀ e, (e ∈ (c.add_ op).edges ∧ e.dst = .out r) ↔ e = ⟨n, .out r, r⟩ := by
-        intro e
-        rw [hE]
-        constructor
-        · rintro ⟨⟨he, hne⟩ | ⟨k, hk, h | h⟩, hd⟩
-          · exfalso
-            have : e ∈ c.inEdges (.out r) := by simp [inEdges, he, hd]
-            rw [g.inv.inEdges_out hl0] at this
-            exact hne r hr (by simpa using this)
-          · exfalso; rw [h] at hd; exact absurd hd (by simp)
-          · rw [h] at hd ⊢; injection hd with hd; subst hd; rfl
-        · intro h
-          exact ⟨Or.inr ⟨r, hr, Or.inr h⟩, by rw [h]⟩
-      apply HasDepth.node (fun _ => M) (not_isInputNode_out g2.inv r)
-      · intro e he hd; rw [(hout_in e).mp ⟨he, hd⟩]; exact hdn
-      · intro e _ _; exact Int.le_refl _
-      · have := (hout_in ⟨n, .out r, r⟩).mpr rfl
-        exact ⟨_, this.1, this.2, rfl⟩
+      exact hout r hr
     · simp only [hr, if_false]
       apply htrans (hF.1 r hl0)
       constructor
@@ -398,6 +460,11 @@ theorem add_depthInv {c : Dag} {P : Paths} (g : Good c P) {op : Op} (hop : OpWF 
     simp only [hr, if_false]
     exact hF.2 r hnl0
 
+theorem add_depthInv {c : Dag} {P : Paths} (g : Good c P) {op : Op} (hop : OpWF op)
+    (hkey : "Input" ∉ op.indexKeys) (hlive : ∀ r ∈ opRegs op, c.live r) {F : Reg → Int} (hF : DepthInv c F) {M : Int}
+    (hle : ∀ k ∈ opRegs op, F k ≤ M) (hex : ∃ k ∈ opRegs op, F k = M) :
+    DepthInv (c.add_ op) (fun r => if r ∈ opRegs op then M + 1 else F r) :=
+  (add_depth_facts g hop hkey hlive hF hle hex).2.2.2
 
 /-! ## the specification side: ASAP fronts of an operation list -/
 
@@ -499,6 +566,139 @@ theorem add_depthInv_spec {c : Dag} {P : Paths} (g : Good c P) {op : Op} (hwf : 
         rw [spec_opRegs_eq]
         push_cast; omega
       · simp only [hr, if_false]
+
+/-! ### the bound on all nodes -/
+
+/-- every node has a depth ≤ `B`, `B ≥ 0` is attained by some node unless the circuit is empty (then `B = 0`) -/
+structure DepthAll (c : Dag) (B : Int) : Prop where
+  all : ∀ n ∈ c.nodeIds, ∃ d, HasDepth c n d ∧ d ≤ B
+  nonneg : 0 ≤ B
+  att : c.nodeIds ≠ [] → ∃ n ∈ c.nodeIds, HasDepth c n B
+  empty : c.nodeIds = [] → B = 0
+
+theorem withNewReg_depthAll {c : Dag} {P : Paths} (g : Good c P) {B : Int} (hB : DepthAll c B) {r : Reg}
+    (hr : r.idx = c.regs r.ty) : DepthAll (c.withNewReg r) B := by
+  obtain ⟨ht, hi, ho⟩ := withNewReg_depth_facts g hr
+  have hids : (c.withNewReg r).nodeIds = c.nodeIds ++ [.inp r, .out r] := by simp [nodeIds, withNewReg]
+  refine ⟨?_, hB.nonneg, ?_, ?_⟩
+  · intro n hn
+    rw [hids] at hn
+    rcases List.mem_append.mp hn with hn | hn
+    · obtain ⟨d, hd, hdB⟩ := hB.all n hn
+      exact ⟨d, ht n d hd hn, hdB⟩
+    · simp at hn
+      rcases hn with rfl | rfl
+      · exact ⟨-1, hi, by have := hB.nonneg; omega⟩
+      · exact ⟨0, ho, hB.nonneg⟩
+  · intro _
+    by_cases he : c.nodeIds = []
+    · rw [hB.empty he]
+      exact ⟨.out r, by rw [hids]; simp, ho⟩
+    · obtain ⟨n, hn, hd⟩ := hB.att he
+      exact ⟨n, by rw [hids]; exact List.mem_append_left _ hn, ht n B hd hn⟩
+  · intro he; rw [hids] at he; simp at he
+
+theorem addRegIfAbsent_depthAll {c : Dag} {P : Paths} (g : Good c P) {B : Int} (hB : DepthAll c B) (r : Reg) :
+    DepthAll (c.addRegIfAbsent r).1 B := by
+  by_cases h1 : c.regs r.ty < r.idx
+  · rw [addRegIfAbsent_gap h1]; exact hB
+  · by_cases h2 : r.idx = c.regs r.ty
+    · rw [addRegIfAbsent_new g.inv h2]; exact withNewReg_depthAll g hB h2
+    · have hl : c.live r := by unfold live; omega
+      rw [addRegIfAbsent_old g.inv hl]; exact hB
+
+theorem addRegs_depthAll {c : Dag} {P : Paths} (g : Good c P) {B : Int} (hB : DepthAll c B) (rs : List Reg) :
+    DepthAll (c.addRegs rs).1 B := by
+  induction rs generalizing c P with
+  | nil => exact hB
+  | cons r rest ih =>
+    have h1 := addRegIfAbsent_depthAll g hB r
+    obtain ⟨P1, g1, _⟩ := addRegIfAbsent_good g r
+    unfold addRegs
+    cases hres : c.addRegIfAbsent r with
+    | mk c1 err =>
+      rw [hres] at h1 g1
+      simp only at h1 g1
+      cases err with
+      | some e => exact h1
+      | none => exact ih g1 h1
+
+theorem ensureRegs_depthAll {c : Dag} {P : Paths} (g : Good c P) {B : Int} (hB : DepthAll c B) (op : Op) :
+    DepthAll (c.ensureRegs op).1 B := by
+  have h1 := addRegs_depthAll g hB (op.cregs.map (Reg.mk .c))
+  obtain ⟨P1, g1, _⟩ := addRegs_good g (op.cregs.map (Reg.mk .c))
+  unfold ensureRegs
+  cases hres : c.addRegs (op.cregs.map (Reg.mk .c)) with
+  | mk c1 err =>
+    rw [hres] at h1 g1
+    simp only at h1 g1
+    cases err with
+    | some e => exact h1
+    | none =>
+      simp only
+      by_cases hq : op.qregs.isEmpty = true
+      · simp only [hq, if_true]; exact h1
+      · have hq' : op.qregs.isEmpty = false := by simpa using hq
+        simp only [hq', Bool.false_eq_true, if_false]
+        exact addRegs_depthAll g1 h1 _
+
+theorem add_depthAll {c : Dag} {P : Paths} (g : Good c P) {op : Op} (hop : OpWF op)
+    (hkey : "Input" ∉ op.indexKeys) (hlive : ∀ r ∈ opRegs op, c.live r) {F : Reg → Int} (hF : DepthInv c F) {M : Int}
+    (hle : ∀ k ∈ opRegs op, F k ≤ M) (hex : ∃ k ∈ opRegs op, F k = M) {B : Int} (hB : DepthAll c B) :
+    DepthAll (c.add_ op) (max B (M + 1)) := by
+  obtain ⟨ht, hn, ho, _⟩ := add_depth_facts g hop hkey hlive hF hle hex
+  obtain ⟨_, _, _, _, hnodes, _⟩ := add_good' g hop hlive
+  have hids : (c.add_ op).nodeIds = c.nodeIds ++ [.op (c.nodeId + 1)] := by simp [nodeIds, hnodes]
+  have hfresh := g.inv.op_fresh
+  obtain ⟨k0, hk0, hk0M⟩ := hex
+  have hM0 : 0 ≤ M + 1 := by
+    have := (hF.1 k0 (hlive k0 hk0)).ge; omega
+  refine ⟨?_, by have := hB.nonneg; omega, ?_, ?_⟩
+  · intro x hx
+    rw [hids] at hx
+    rcases List.mem_append.mp hx with hx | hx
+    · by_cases hxo : ∃ k ∈ opRegs op, x = .out k
+      · obtain ⟨k, hk, rfl⟩ := hxo
+        exact ⟨M + 1, ho k hk, by omega⟩
+      · obtain ⟨d, hd, hdB⟩ := hB.all x hx
+        refine ⟨d, ht x d hd (fun e => hfresh (e ▸ hx)) (fun k hk e => hxo ⟨k, hk, e⟩), by omega⟩
+    · simp at hx; subst hx
+      exact ⟨M, hn, by omega⟩
+  · intro _
+    by_cases hcase : B ≤ M + 1
+    · have : max B (M + 1) = M + 1 := by omega
+      rw [this]
+      exact ⟨.out k0, by rw [hids]; exact List.mem_append_left _ ((g.inv.out_iff k0).mpr (hlive k0 hk0)), ho k0 hk0⟩
+    · have : max B (M + 1) = B := by omega
+      rw [this]
+      have hne : c.nodeIds ≠ [] := by
+        intro he
+        have := (g.inv.out_iff k0).mpr (hlive k0 hk0)
+        rw [he] at this; simp at this
+      obtain ⟨n0, hn0, hd0⟩ := hB.att hne
+      refine ⟨n0, by rw [hids]; exact List.mem_append_left _ hn0, ?_⟩
+      apply ht n0 B hd0 (fun e => hfresh (e ▸ hn0))
+      intro k hk e
+      subst e
+      have := (hF.1 k (hlive k hk)).unique hd0
+      have := hle k hk
+      omega
+  · intro he; rw [hids] at he; simp at he
+
+theorem layers_append (f : List (Reg × Nat)) (pre : List Op) (op : Op) :
+    Spec.layers f (pre ++ [op]) = Spec.layers f pre ++ [Spec.layerOf (pre.foldl Spec.pushLayer f) op] := by
+  induction pre generalizing f with
+  | nil => simp [Spec.layers]
+  | cons a t ih => simp [Spec.layers, ih]
+
+theorem foldl_max_append (l : List Nat) (a x : Nat) : (l ++ [x]).foldl max a = max (l.foldl max a) x := by
+  simp [List.foldl_append]
+
+theorem spec_depth_append (pre : List Op) (op : Op) :
+    Spec.depth (pre ++ [op]) = max (Spec.depth pre) (Spec.layerOf (Spec.fronts pre) op) := by
+  unfold Spec.depth
+  rw [layers_append, foldl_max_append]
+  rfl
 
 end Dag
 
@@ -627,6 +827,201 @@ theorem calculateRegDepth_eq_spec (ne np nc : Nat) (seq : List Op) (hseq : ∀ o
   apply mapM_range_ok
   intro i hi
   exact maxDepth_out_eq_spec ne np nc seq hseq hok ⟨t, i⟩ hi
+
+end Metrics
+end Graphiq
+
+/-! ## circuit depth: the longest path (networkx' `dag_longest_path_length`) and the largest ASAP layer -/
+namespace Graphiq
+namespace Dag
+open Relation Metrics
+
+/-- a directed walk `a → … → b` with `k` edges -/
+inductive Walk (c : Dag) : NodeId → NodeId → Nat → Prop
+  | nil (a : NodeId) : Walk c a a 0
+  | snoc {a x b : NodeId} {k : Nat} : Walk c a x k → c.E x b → Walk c a b (k + 1)
+
+/-- recorded specification of `nx.dag_longest_path_length(G)`: the number of edges of a longest directed walk -/
+def LongestPathSpec (c : Dag) (L : Nat) : Prop := (∃ a b, Walk c a b L) ∧ ∀ a b k, Walk c a b k → k ≤ L
+
+/-- every node has a depth, bounded by `B` -/
+def AllDepth (c : Dag) (B : Int) : Prop := ∀ n ∈ c.nodeIds, ∃ d, HasDepth c n d ∧ d ≤ B
+
+/-- a walk ending in a node of depth `d` has at most `d + 1` edges (input nodes have no in-edges) -/
+theorem Walk.le_depth {c : Dag} (hsrc : ∀ x b, isInputNode c b → ¬ c.E x b) {a b : NodeId} {k : Nat} (w : Walk c a b k) :
+    ∀ d, HasDepth c b d → (k : Int) ≤ d + 1 := by
+  induction w with
+  | nil => intro d hd; have := hd.ge; omega
+  | @snoc x b k w hxb ih =>
+    intro d hd
+    cases hd with
+    | input hi => exact absurd hxb (hsrc x b hi)
+    | @node _ d' D _ hpred hle _ =>
+      obtain ⟨e, he, rfl, rfl⟩ := hxb
+      have h1 := ih (D e) (hpred e he rfl)
+      have h2 := hle e he rfl
+      push_cast; omega
+
+/-- a node of depth `d` ends a walk with `d + 1` edges -/
+theorem HasDepth.walk {c : Dag} {b : NodeId} {d : Int} (h : HasDepth c b d) : ∃ a, Walk c a b (d + 1).toNat := by
+  induction h with
+  | @input n _ => exact ⟨n, by simpa using Walk.nil n⟩
+  | @node n d D _ hpred _ hex ih =>
+    obtain ⟨e, he, hd, hD⟩ := hex
+    obtain ⟨a, wa⟩ := ih e he hd
+    have hge := (hpred e he hd).ge
+    refine ⟨a, ?_⟩
+    have : (d + 1 + 1).toNat = (D e + 1).toNat + 1 := by rw [hD]; omega
+    rw [this]
+    exact Walk.snoc wa ⟨e, he, rfl, hd⟩
+
+/-- **depth from the specification of networkx**: if every node has a depth ≤ `B`, some node attains `B`, and input
+    nodes have no in-edges, then any `L` meeting the longest-path specification is `B + 1` — so `depth = L − 1 = B` -/
+theorem depth_of_allDepth {c : Dag} {B : Int} (hall : AllDepth c B) (hsrc : ∀ x b, isInputNode c b → ¬ c.E x b)
+    (hatt : ∃ n, HasDepth c n B) (hnodes : ∀ a b k, Walk c a b k → 0 < k → b ∈ c.nodeIds) {L : Nat}
+    (hL : LongestPathSpec c L) : Dag.depthWith L = B := by
+  obtain ⟨n, hn⟩ := hatt
+  have hB := hn.ge
+  obtain ⟨a, wa⟩ := hn.walk
+  have h1 : (B + 1).toNat ≤ L := hL.2 a n _ wa
+  obtain ⟨a', b', w'⟩ := hL.1
+  have h2 : (L : Int) ≤ B + 1 := by
+    by_cases hL0 : L = 0
+    · subst hL0; push_cast; omega
+    · obtain ⟨d, hd, hdB⟩ := hall b' (hnodes a' b' L w' (by omega))
+      have := w'.le_depth hsrc d hd
+      omega
+  unfold depthWith
+  omega
+
+end Dag
+end Graphiq
+
+namespace Graphiq
+namespace Metrics
+open Dag Relation
+
+theorem add_depthAll_spec {c : Dag} {P : Paths} (g : Good c P) {op : Op} (hwf : OpWF op) (hp : PlainOp op) (pre : List Op)
+    (hF : DepthInv c (fun r => (Spec.frontGet (Spec.fronts pre) r : Int))) (hB : DepthAll c (Spec.depth pre : Int))
+    (hok : (c.add op).2 = none) : DepthAll (c.add op).1 (Spec.depth (pre ++ [op]) : Int) := by
+  have h1 := ensureRegs_depthInv g hF op
+  have h2 := ensureRegs_depthAll g hB op
+  obtain ⟨P1, g1, hl1, _, _⟩ := ensureRegs_good g op
+  unfold add at hok ⊢
+  cases hres : c.ensureRegs op with
+  | mk c1 err =>
+    rw [hres] at h1 h2 g1 hl1 hok
+    simp only at h1 h2 g1 hl1 hok
+    cases err with
+    | some e => simp at hok
+    | none =>
+      simp only
+      have hlive := hl1 rfl
+      obtain ⟨a1, a2, a3⟩ := foldl_max_nat (fun r => Spec.frontGet (Spec.fronts pre) r) (opRegs op) 0
+      have hne : opRegs op ≠ [] := by
+        unfold opRegs; intro h
+        exact hwf.qregs_ne (List.append_eq_nil_iff.mp h).1
+      have hex : ∃ k ∈ opRegs op, Spec.frontGet (Spec.fronts pre) k =
+          (opRegs op).foldl (fun m r => max m (Spec.frontGet (Spec.fronts pre) r)) 0 := by
+        rcases a3 with h0 | h
+        · obtain ⟨k, hk⟩ := List.exists_mem_of_ne_nil _ hne
+          exact ⟨k, hk, by have := a2 k hk; omega⟩
+        · exact h
+      have := add_depthAll g1 hwf (input_not_key hwf hp) hlive h1
+        (M := (((opRegs op).foldl (fun m r => max m (Spec.frontGet (Spec.fronts pre) r)) 0 : Nat) : Int))
+        (fun k hk => by exact_mod_cast a2 k hk)
+        (by obtain ⟨k, hk, he⟩ := hex; exact ⟨k, hk, by exact_mod_cast he⟩) h2
+      have heq : ((Spec.depth (pre ++ [op]) : Nat) : Int) =
+          max (Spec.depth pre : Int) ((((opRegs op).foldl (fun m r => max m (Spec.frontGet (Spec.fronts pre) r)) 0 : Nat) : Int) + 1) := by
+        rw [spec_depth_append]
+        unfold Spec.layerOf
+        rw [spec_opRegs_eq]
+        omega
+      rw [heq]; exact this
+
+theorem build_depthAll (ne np nc : Nat) (seq : List Op) (hseq : ∀ op ∈ seq, OpWF op ∧ PlainOp op)
+    (hok : (build ne np nc seq).2 = none) : DepthAll (build ne np nc seq).1 (Spec.depth seq : Int) := by
+  have herr : ∀ (l : List Op) (c : Dag) (e : DErr), (l.foldl buildStep (c, some e)).2 = some e := by
+    intro l; induction l with
+    | nil => intro c e; rfl
+    | cons o t iht => intro c e; rw [List.foldl_cons]; exact iht c e
+  have key : ∀ (rest pre : List Op) (c : Dag) (P : Paths), Good c P → (∀ op ∈ rest, OpWF op ∧ PlainOp op) →
+      DepthInv c (fun r => (Spec.frontGet (Spec.fronts pre) r : Int)) → DepthAll c (Spec.depth pre : Int) →
+      (rest.foldl buildStep (c, none)).2 = none →
+      DepthAll (rest.foldl buildStep (c, none)).1 (Spec.depth (pre ++ rest) : Int) := by
+    intro rest
+    induction rest with
+    | nil => intro pre c P _ _ _ hB _; simpa using hB
+    | cons op rest ih =>
+      intro pre c P g hwf hF hB hok
+      rw [List.foldl_cons] at hok ⊢
+      have hstep : buildStep (c, none) op = c.add op := rfl
+      rw [hstep] at hok ⊢
+      cases hres : c.add op with
+      | mk c1 err =>
+        rw [hres] at hok
+        cases err with
+        | some e => rw [herr] at hok; simp at hok
+        | none =>
+          obtain ⟨P1, g1⟩ := add_good g (hwf op (by simp)).1
+          rw [hres] at g1
+          have h1 := add_depthInv_spec g (hwf op (by simp)).1 (hwf op (by simp)).2 pre hF (by rw [hres])
+          have h2 := add_depthAll_spec g (hwf op (by simp)).1 (hwf op (by simp)).2 pre hF hB (by rw [hres])
+          rw [hres] at h1 h2
+          have := ih (pre ++ [op]) c1 P1 g1 (fun o ho => hwf o (List.mem_cons_of_mem _ ho)) h1 h2 hok
+          simpa using this
+  obtain ⟨P0, g0⟩ := init_good ne np nc
+  have hz : (fun r : Reg => ((Spec.frontGet (Spec.fronts []) r : Nat) : Int)) = fun _ => 0 := by
+    funext r; simp [Spec.fronts, Spec.frontGet]
+  have hF0 : DepthInv (Dag.init ne np nc) (fun r => (Spec.frontGet (Spec.fronts []) r : Int)) := by
+    rw [hz]
+    unfold Dag.init
+    apply addRegs_depthInv empty_good
+    constructor
+    · intro r hl; cases r with | mk t i => cases t <;> simp [live, regs, Dag.empty] at hl
+    · intro r _; rfl
+  have hB0 : DepthAll (Dag.init ne np nc) (Spec.depth [] : Int) := by
+    unfold Dag.init
+    apply addRegs_depthAll empty_good
+    refine ⟨?_, by simp [Spec.depth, Spec.layers], ?_, ?_⟩
+    · intro n hn; simp [nodeIds, Dag.empty] at hn
+    · intro h; exact absurd (by simp [nodeIds, Dag.empty]) h
+    · intro _; simp [Spec.depth, Spec.layers]
+  have := key seq [] (Dag.init ne np nc) P0 g0 hseq hF0 hB0 hok
+  simpa [build] using this
+
+/-- **`CircuitDepth` = the largest ASAP layer of the operation list**, for every circuit built by `add` that has at
+    least one register, and for every value `L` meeting the recorded specification of `nx.dag_longest_path_length` -/
+theorem circuitDepth_eq_spec (ne np nc : Nat) (seq : List Op) (hseq : ∀ op ∈ seq, OpWF op ∧ PlainOp op)
+    (hok : (build ne np nc seq).2 = none) (hne : (build ne np nc seq).1.nodeIds ≠ []) {L : Nat}
+    (hL : LongestPathSpec (build ne np nc seq).1 L) : circuitDepthWith L = (Spec.depth seq : Int) := by
+  have hB := build_depthAll ne np nc seq hseq hok
+  obtain ⟨hops, ⟨P, g⟩⟩ := build_spec ne np nc seq (fun op h => (hseq op h).1) hok
+  unfold circuitDepthWith
+  apply depth_of_allDepth hB.all _ _ _ hL
+  · -- input nodes have no in-edges
+    intro x b hi hE
+    rw [isInputNode_iff g.inv] at hi
+    obtain ⟨_, hb⟩ := E_nodes g.inv hE
+    obtain ⟨o, ho⟩ := mem_nodeIds.mp hb
+    unfold keysAt at hi
+    rw [(opOf_eq_some g.inv.ids_nodup).mpr ho] at hi
+    cases b with
+    | inp r => exact g.inv.inp_source r x hE
+    | out r => simp [indexKeysOf] at hi
+    | op i =>
+      simp only [indexKeysOf] at hi
+      have hmem : o ∈ opsOf (build ne np nc seq).1 := by
+        unfold opsOf
+        exact List.mem_map.mpr ⟨(.op i, o), List.mem_filter.mpr ⟨ho, rfl⟩, rfl⟩
+      rw [hops] at hmem
+      exact input_not_key (hseq o hmem).1 (hseq o hmem).2 hi
+  · obtain ⟨n, _, hn⟩ := hB.att hne
+    exact ⟨n, hn⟩
+  · intro a b k w hk
+    cases w with
+    | nil => omega
+    | snoc _ hxb => exact (E_nodes g.inv hxb).2
 
 end Metrics
 end Graphiq
